@@ -289,7 +289,7 @@ func (s *keystore) persistSize() error {
 // put stores the provided keys and returns the keys that weren't present
 // already in the keystore.
 func (s *keystore) put(ctx context.Context, keys []mh.Multihash) ([]mh.Multihash, error) {
-	seen := make(map[bit256.Key]struct{}, len(keys))
+	seen := make(map[ds.Key]struct{}, len(keys)) // keyed by datastore key: bit256.Key holds a pointer and compares by identity
 	b, err := s.ds.Batch(ctx)
 	if err != nil {
 		return nil, err
@@ -297,12 +297,11 @@ func (s *keystore) put(ctx context.Context, keys []mh.Multihash) ([]mh.Multihash
 	newKeys := make([]mh.Multihash, 0, len(keys))
 
 	for _, h := range keys {
-		k := keyspace.MhToBit256(h)
-		if _, ok := seen[k]; ok {
+		dsk := dsKey(keyspace.MhToBit256(h), s.prefixBits)
+		if _, ok := seen[dsk]; ok {
 			continue
 		}
-		seen[k] = struct{}{}
-		dsk := dsKey(k, s.prefixBits)
+		seen[dsk] = struct{}{}
 		ok, err := s.ds.Has(ctx, dsk)
 		if err != nil {
 			return nil, err
@@ -469,15 +468,14 @@ func (s *keystore) delete(ctx context.Context, keys []mh.Multihash) error {
 	if err != nil {
 		return err
 	}
-	seen := make(map[bit256.Key]struct{}, len(keys))
+	seen := make(map[ds.Key]struct{}, len(keys)) // keyed by datastore key: bit256.Key holds a pointer and compares by identity
 	removedCount := 0
 	for _, h := range keys {
-		k := keyspace.MhToBit256(h)
-		if _, ok := seen[k]; ok {
+		dsk := dsKey(keyspace.MhToBit256(h), s.prefixBits)
+		if _, ok := seen[dsk]; ok {
 			continue
 		}
-		seen[k] = struct{}{}
-		dsk := dsKey(k, s.prefixBits)
+		seen[dsk] = struct{}{}
 		ok, err := s.ds.Has(ctx, dsk)
 		if err != nil {
 			return err
